@@ -44,3 +44,25 @@ func (dsp *DataStreamProcessor) VerifAnalyzeHeld(datas [][]uint16, presamples in
 
 // Read projects record k as it is NOW.
 func (h *VerifHeld) Read(k int) VerifRecord { return verifRecord(h.recs[k]) }
+
+// VerifRecSpec describes one record of a mixed batch: records of different lengths, pre-trigger lengths and
+// signedness in ONE AnalyzeData call (edge-multi triggering produces variable-length records).
+type VerifRecSpec struct {
+	Data   []uint16
+	Pre    int
+	Signed bool
+}
+
+// VerifAnalyzeMixed runs AnalyzeData once on the given records and returns them held.
+func (dsp *DataStreamProcessor) VerifAnalyzeMixed(specs []VerifRecSpec) *VerifHeld {
+	recs := make([]*DataRecord, len(specs))
+	for k, s := range specs {
+		raw := make([]RawType, len(s.Data))
+		for i, v := range s.Data {
+			raw[i] = RawType(v)
+		}
+		recs[k] = &DataRecord{data: raw, presamples: s.Pre, signed: s.Signed, channelIndex: dsp.channelIndex}
+	}
+	dsp.AnalyzeData(recs)
+	return &VerifHeld{recs: recs}
+}
